@@ -484,7 +484,13 @@ def run_obligation(ob, table, outdir):
     if c["n_props"] == 0 or c["n_success"] != c["n_props"]:
         r["reason"] = "cbmc reported %d/%d properties SUCCESS" % (c["n_success"], c["n_props"])
         return r
-    if not ob.get("allow_unreachable") and (unreachable or (c["asserts"] and reachable == 0)):
+    # vacuity: at least one explicit harness assertion must be reachable (Kani's assertion-reach-checks are the witness:
+    # the `assert(false)` twin of that assertion came back violated). Unreachable ones are listed in the evidence; with
+    # strict_reach every explicit assertion has to be reachable.
+    if c["asserts"] and reachable == 0:
+        r["reason"] = "vacuous: no harness assertion is reachable"
+        return r
+    if ob.get("strict_reach") and unreachable:
         r["reason"] = "vacuous: harness assertion(s) unreachable: %s" % unreachable[:3]
         return r
     r["verdict"] = "pass"
